@@ -16,7 +16,7 @@ mod replaymc;
 
 const KINDS: [&str; 5] = ["zero", "one", "cores", "cores_half", "pids"];
 
-fn config_json(kinds: &[usize]) -> String {
+fn config_json(kinds: &[usize], default: usize) -> String {
     let mut classes = vec![];
     for (j, &k) in kinds.iter().enumerate() {
         let p = j / 2;
@@ -27,7 +27,7 @@ fn config_json(kinds: &[usize]) -> String {
         };
         classes.push(json!({"id": j, "count": KINDS[k], "order": [3 * p, 3 * p + 2], "gfp": gfp}));
     }
-    json!({"classes": classes, "default": 0, "perfect": [64, 2047], "good": [2048, 4095]}).to_string()
+    json!({"classes": classes, "default": default, "perfect": [64, 2047], "good": [2048, 4095]}).to_string()
 }
 
 struct Case<'a> {
@@ -193,15 +193,26 @@ fn c19(tier: &str, out: Option<&Path>) -> i32 {
         vec![1, 2, 3, 4, 7, 8, 16]
     };
     par_for(combos.len(), |i| {
-        let js = config_json(&combos[i]);
-        let cfg: ClassingConfig = match facet_json::from_str(&js) {
-            Ok(c) => c,
-            Err(e) => panic!("MACHINERY: generated config rejected by the deserialiser: {e:?}\n{js}"),
-        };
-        let desc = combos[i].iter().map(|&k| KINDS[k]).collect::<Vec<_>>().join(",");
-        let (e, d) = c19_config(&cfg, &desc, &cores_list, thorough, &col);
-        evals.fetch_add(e, Ordering::Relaxed);
-        distinct.fetch_add(d, Ordering::Relaxed);
+        // the default class (used for requests that match no class) ranges over the
+        // first and the last configured id
+        let mut defaults = vec![0usize];
+        if combos[i].len() > 1 {
+            defaults.push(combos[i].len() - 1);
+        }
+        for default in defaults {
+            let js = config_json(&combos[i], default);
+            let cfg: ClassingConfig = match facet_json::from_str(&js) {
+                Ok(c) => c,
+                Err(e) => panic!("MACHINERY: generated config rejected by the deserialiser: {e:?}\n{js}"),
+            };
+            let desc = format!(
+                "{} default={default}",
+                combos[i].iter().map(|&k| KINDS[k]).collect::<Vec<_>>().join(",")
+            );
+            let (e, d) = c19_config(&cfg, &desc, &cores_list, thorough, &col);
+            evals.fetch_add(e, Ordering::Relaxed);
+            distinct.fetch_add(d, Ordering::Relaxed);
+        }
     });
     // shipped configurations
     let mut shipped = vec![];
@@ -234,7 +245,7 @@ fn c19(tier: &str, out: Option<&Path>) -> i32 {
         t0,
         evals.load(Ordering::Relaxed),
         distinct.load(Ordering::Relaxed),
-        "every configuration with 1-4 classes whose slot kinds range over {zero,one,cores,cores_half,pids} (780), built through the real JSON deserialiser with order ranges / MOVABLE matchers that make every class reachable, plus the shipped results/classes*.json; x core counts x orders 0..=10 x 8 gfp words x boundary cores/pids {0,1,2,cores-1,cores,cores+1,2cores-1,63,64}^2, and every core x pid in 0..=64 (16 quick) for one (order,gfp) per class. Oracle: class configured in classing(cores), local None or < slot count; one get/put per distinct request on a real allocator under catch_unwind. distinct_nontrivial = distinct (class, local, order) requests per (config, cores)",
+        "every configuration with 1-4 classes whose slot kinds range over {zero,one,cores,cores_half,pids} (780) x default class in {first, last id}, built through the real JSON deserialiser with order ranges / MOVABLE matchers that make every class reachable, plus the shipped results/classes*.json; x core counts x orders 0..=10 x 8 gfp words x boundary cores/pids {0,1,2,cores-1,cores,cores+1,2cores-1,63,64}^2, and every core x pid in 0..=64 (16 quick) for one (order,gfp) per class. Oracle: class configured in classing(cores), local None or < slot count; one get/put per distinct request on a real allocator under catch_unwind. distinct_nontrivial = distinct (class, local, order) requests per (config, cores)",
         vec![json!({"config": "one,cores", "cores": 4, "order": 0, "core": 5, "pid": 9, "gfp": 0})],
         json!({"kind_combinations": combos.len(), "shipped_configs": shipped.iter().map(|p| p.display().to_string()).collect::<Vec<_>>(), "core_counts": cores_list}),
         vec!["the full core x pid product is enumerated for one (order, gfp) per class only; the class choice depends on (order, gfp), the slot on (kind, core, cores, pid)".into()],
